@@ -2,6 +2,7 @@
 From Coq Require Import Reals ZArith QArith Qreals String List Bool.
 From Coquelicot Require Import Coquelicot.
 From PT Require Import Str Dec Py IExpr ActEval ActEvalSound Act Activation C14Proofs C14Sweep C14Table.
+From PT Require C14Check.   (* the comparison rules the tie runs: kept in the build of this file *)
 From PT.Gen Require ActivationDat.
 Import ListNotations.
 Open Scope R_scope.
